@@ -656,7 +656,10 @@ func canonicalUnicodeCatName(catName string) (string, bool) {
 
 	normalized := normalizeUnicodeCategoryAlias(catName)
 	if canonical, ok := unicodeSupportedPropertyAliases[normalized]; ok {
-		return canonical, true
+		// an enumerated property (gcb, sb, wb) is not a class by itself, it needs a value
+		if _, ok := unicodeCategories[canonical]; ok {
+			return canonical, true
+		}
 	}
 	if canonical, ok := unicodeBarePropertyValueAliases[normalized]; ok {
 		return canonical, true
